@@ -5,6 +5,11 @@ Tie: strict Rat correspondence (positions and values; equal-valued maxima canoni
 (local / global, thresholds), `TimeSeries.maxima/minima(rettime)`, `max/min`, `average_frequency` on all integer signals over
 {0,1,2,3} up to the tier's length and random integer / dyadic signals.
 Search: the property's clauses on the implementation alone (run-based characterisation computed independently in Python).
+Query histories: the clauses must hold for EVERY call, whatever was called before.  Sequences of maxima / minima / max / min
+queries (local/global, thresholds, windows, rettime on/off, returned arrays overwritten by the caller) are issued on one
+TimeSeries (or on two series built from the same arrays) and every step is compared with the independent reference on the
+signal the series was built from, with the model (same pk.max / pk.min requests), and with the signal read back from the
+series after the call.  All 2-step (and 3-step) histories over a base set of 8 queries are enumerated on a few signals.
 """
 import itertools
 from fractions import Fraction
@@ -15,7 +20,11 @@ from .. import core
 from ..core import rat
 
 RULE = ("all words over {0,1,2,3} of length 1..7 (quick) / 9 (thorough) plus seeded random integer signals (length <= 80, plateaus, few "
-        "crossings) x local/global x thresholds; non-trivial = at least one maximum found; distinct by (signal, mode, threshold)")
+        "crossings) x local/global x thresholds; non-trivial = at least one maximum found; distinct by (signal, mode, threshold). "
+        "Query histories: every ordered pair (and triple, on 2 signals) of {maxima,minima} x {global,local} x {no window, inner window} on "
+        "6 signals, plus seeded random histories of 2..8 queries (maxima/minima/max/min, thresholds, windows on/between/outside "
+        "samples, rettime, 1 or 2 series sharing the source arrays, caller overwriting returned arrays); non-trivial = a step after "
+        "a minima()/maxima() call on the same series returns at least one extremum")
 
 
 def canon(vals, idx):
@@ -76,6 +85,202 @@ def gen(chk):
                 v += rng.choice([-3, -1, -1, 0, 0, 1, 1, 3])
                 x.append(Fraction(v, rng.choice([1, 1, 2])))
         yield x
+
+
+# ---- query histories on one object ------------------------------------------------------------------------------------------------
+H_ORDER = "every query of a sequence on one TimeSeries returns exactly the %s of the signal the series was built from " \
+          "(minima = mirrored maxima of the negated signal, threshold negated too; window = that part of the signal), " \
+          "at the times of those positions, whatever was queried before"
+H_READBACK = "returned extrema are the series' signal values at the reported times (signal and times read back from the series after the call)"
+H_ASC = "maxima / minima in ascending order"
+H_MAXMIN = "TimeSeries.max/min are the extreme signal values (of the window), whatever was queried before"
+H_INTACT = "a peak query leaves the signal and times of the series (and of the arrays / other series it was built from) as they were"
+
+
+def ref_extrema(x, q, local, thr):
+    """reference for one maxima/minima query on the (windowed) exact signal: sorted (value, position)"""
+    if q == "maxima":
+        r = ref_local(x) if local else ref_global(x)
+        return [(v, i) for v, i in r if thr is None or v >= thr]
+    y = [-v for v in x]
+    r = ref_local(y) if local else ref_global(y)
+    return sorted((-v, i) for v, i in r if thr is None or v >= -thr)
+
+
+def window_of(t, tw):
+    return [i for i in range(len(t)) if tw is None or (tw[0] <= t[i] <= tw[1])]
+
+
+def rand_signal(rng, n):
+    k = rng.random()
+    if k < 0.4:
+        return [Fraction(rng.randint(-8, 8)) for _ in range(n)]
+    if k < 0.6:
+        return [Fraction(rng.randint(-2, 2)) for _ in range(n)]
+    v, x = 0, []
+    for _ in range(n):
+        v += rng.choice([-3, -1, -1, 0, 0, 1, 1, 3])
+        x.append(Fraction(v, rng.choice([1, 1, 2])))
+    return x
+
+
+def rand_times(rng, n):
+    dt = rng.choice([Fraction(1, 4), Fraction(1, 2), Fraction(1), Fraction(2)])
+    t0 = Fraction(rng.randint(-4, 4))
+    if rng.random() < 0.7:
+        return [t0 + k * dt for k in range(n)]
+    t = [t0]
+    for _ in range(n - 1):
+        t.append(t[-1] + dt * rng.choice([1, 1, 2, 3]))
+    return t
+
+
+def rand_twin(rng, t):
+    n = len(t)
+    k = rng.random()
+    if k < 0.45 or n < 4:
+        return None
+    if k < 0.55:
+        return (t[0] - 1, t[-1] + 1)                       # a window that keeps everything
+    a = rng.randint(0, n - 3)
+    b = rng.randint(a + 2, n - 1)
+    lo = t[a] if (a == 0 or rng.random() < 0.6) else (t[a] + t[a - 1]) / 2
+    hi = t[b] if (b == n - 1 or rng.random() < 0.6) else (t[b] + t[b + 1]) / 2
+    return (lo, hi)
+
+
+def mk_op(q, obj=0, local=False, thr=None, twin=None, rettime=True, scribble=False):
+    op = dict(obj=obj, q=q, twin=None if twin is None else [str(twin[0]), str(twin[1])])
+    if q in ("maxima", "minima"):
+        op.update(local=bool(local), threshold=None if thr is None else str(thr), rettime=bool(rettime), scribble=bool(scribble))
+    return op
+
+
+def mk_hist(x, t, ops, objects=1):
+    return dict(kind="history", x=[str(v) for v in x], t=[str(v) for v in t], objects=objects, ops=ops)
+
+
+def gen_histories(chk):
+    rng = chk.rng
+    # (a) systematic: all ordered pairs / triples over the base set of 8 queries
+    sigs = [[Fraction(v) for v in w] for w in ([0, 3, 3, 0, 5, 1, 0, 4, 0], [2, 0, 1, -3, -1, -2, 4, 0, 1, 0], [1, 2, 0, 3, -1, 1, 0])]
+    sigs += [rand_signal(rng, rng.choice([8, 11, 14])) for _ in range(3)]
+    for k, x in enumerate(sigs):
+        t = [Fraction(i, 4) - 1 for i in range(len(x))]
+        base = [(q, loc, tw) for q in ("maxima", "minima") for loc in (False, True) for tw in (None, (t[1], t[-2]))]
+        depth = (2, 3) if (k in (0, 3) or not chk.quick) else (2,)
+        for d in depth:
+            for combo in itertools.product(base, repeat=d):
+                yield mk_hist(x, t, [mk_op(q, local=loc, twin=tw) for q, loc, tw in combo])
+    # (b) seeded random histories
+    for _ in range(500 if chk.quick else 6000):
+        n = rng.choice([3, 5, 8, 13, 21, 40])
+        x, t = rand_signal(rng, n), rand_times(rng, n)
+        objects = 1 if rng.random() < 0.75 else 2
+        ops = []
+        for _ in range(rng.randint(2, 8)):
+            q = rng.choice(["maxima", "minima", "minima", "maxima", "max", "min"])
+            thr = rng.choice([None, None, None, Fraction(rng.randint(-3, 3)), Fraction(1, 2)])
+            ops.append(mk_op(q, obj=rng.randrange(objects), local=rng.random() < 0.5, thr=thr, twin=rand_twin(rng, t),
+                             rettime=rng.random() < 0.8, scribble=rng.random() < 0.3))
+        yield mk_hist(x, t, ops, objects)
+
+
+def hist_requests(h):
+    """one model request per maxima/minima step (the model sees the windowed original signal)"""
+    x = [Fraction(v) for v in h["x"]]
+    t = [Fraction(v) for v in h["t"]]
+    out = []
+    for op in h["ops"]:
+        if op["q"] not in ("maxima", "minima"):
+            out.append(None)
+            continue
+        tw = None if op["twin"] is None else (Fraction(op["twin"][0]), Fraction(op["twin"][1]))
+        sel = window_of(t, tw)
+        out.append("pk.%s %s %s %s" % ("max" if op["q"] == "maxima" else "min", "local" if op["local"] else "global",
+                                       "-" if op["threshold"] is None else rat(Fraction(op["threshold"])),
+                                       " ".join(rat(x[i]) for i in sel)))
+    return out
+
+
+def eval_history(h, on_fail):
+    """run the queries of `h` in order on the implementation; evaluate the clauses after every step.
+    on_fail(oracle, step, expected, observed); stops at the first failing step.  Returns per step the observed
+    sorted [(value, position)] (rettime) / sorted [value] (no rettime) / None."""
+    from qats import TimeSeries
+    x = [Fraction(v) for v in h["x"]]
+    t = [Fraction(v) for v in h["t"]]
+    x0 = np.array([float(v) for v in x])
+    t0 = np.array([float(v) for v in t])
+    src_x, src_t = x0.copy(), t0.copy()
+    objs = [TimeSeries("s%d" % k, src_t, src_x) for k in range(h["objects"])]      # all built from the same arrays
+    pos = {float(v): i for i, v in enumerate(t)}
+    seen = []
+    for step, op in enumerate(h["ops"]):
+        ts = objs[op["obj"]]
+        twq = None if op["twin"] is None else (Fraction(op["twin"][0]), Fraction(op["twin"][1]))
+        tw = None if twq is None else (float(twq[0]), float(twq[1]))
+        sel = window_of(t, twq)
+        xw, off = [x[i] for i in sel], sel[0]
+        bad = False
+
+        def fail(oracle, expected, observed):
+            nonlocal bad
+            bad = True
+            on_fail(oracle, step, expected, observed)
+        try:
+            if op["q"] in ("max", "min"):
+                v = getattr(ts, op["q"])(twin=tw) if tw is not None else getattr(ts, op["q"])()
+                e = max(xw) if op["q"] == "max" else min(xw)
+                if Fraction(float(v)) != e:
+                    fail(H_MAXMIN, str(e), float(v))
+                seen.append(None)
+            else:
+                thr = None if op["threshold"] is None else Fraction(op["threshold"])
+                ref = [(v, i + off) for v, i in ref_extrema(xw, op["q"], op["local"], thr)]
+                res = getattr(ts, op["q"])(twin=tw, local=op["local"], threshold=None if thr is None else float(thr),
+                                           rettime=op["rettime"])
+                what = "%s %s" % ("local" if op["local"] else "global", op["q"])
+                if op["rettime"]:
+                    m, tm = res
+                    m, tm = np.asarray(m), np.asarray(tm)
+                    if m.shape != tm.shape or any(float(v) not in pos for v in tm):
+                        fail(H_ORDER % what, [(str(a), str(t[b])) for a, b in ref], [m.tolist(), tm.tolist()])
+                        seen.append(None)
+                    else:
+                        ind = [pos[float(v)] for v in tm]
+                        got = canon(m, ind)
+                        seen.append(got)
+                        if got != ref:
+                            fail(H_ORDER % what, [(str(a), b) for a, b in ref], [(str(a), b) for a, b in got])
+                        xn, tn = np.asarray(ts.x), np.asarray(ts.t)
+                        if xn.shape != x0.shape or any(float(xn[i]) != float(v) or float(tn[i]) != float(w) for v, w, i in zip(m, tm, ind)):
+                            fail(H_READBACK, "x[ind], t[ind]", dict(extrema=m.tolist(), times=tm.tolist(),
+                                                                    x_now=xn.tolist()[:40], t_now=tn.tolist()[:40]))
+                else:
+                    m = np.asarray(res)
+                    got = sorted(Fraction(float(v)) for v in m)
+                    seen.append(got)
+                    if got != sorted(v for v, _ in ref):
+                        fail(H_ORDER % what, [str(a) for a, _ in ref], [str(a) for a in got])
+                if any(b < a for a, b in zip(m, m[1:])):
+                    fail(H_ASC, "ascending", m.tolist())
+                if op["scribble"]:                      # the caller re-uses the arrays it was handed
+                    for arr in (res if op["rettime"] else (res,)):
+                        if isinstance(arr, np.ndarray) and arr.size and arr.flags.writeable:
+                            arr[...] = 777.0
+        except Exception as e:                          # noqa
+            fail("the query returns (no exception)", "result", "err:%s:%s" % (type(e).__name__, str(e)[:80]))
+            seen.append(None)
+        for k, o in enumerate(objs):
+            if not (np.array_equal(np.asarray(o.x), x0) and np.array_equal(np.asarray(o.t), t0)):
+                fail(H_INTACT, dict(x=x0.tolist()[:40]), dict(series=k, x_now=np.asarray(o.x).tolist()[:40], t_now=np.asarray(o.t).tolist()[:40]))
+                break
+        if not (np.array_equal(src_x, x0) and np.array_equal(src_t, t0)):
+            fail(H_INTACT, dict(x=x0.tolist()[:40]), dict(source_x_now=src_x.tolist()[:40], source_t_now=src_t.tolist()[:40]))
+        if bad:
+            break
+    return seen
 
 
 def run(chk):
